@@ -2,6 +2,7 @@ package main
 
 import (
 	"fmt"
+	"os"
 	"hash/fnv"
 	"math/rand/v2"
 	"runtime"
@@ -383,6 +384,12 @@ func execC18(s *Script, ch vsimrt.Chooser) *RunResult {
 					continue
 				}
 				res.Stats.Judged["solo-vs-concurrent outcomes compared"]++
+				if budgetEdge(&conc[ti][i], &solo[ti][i], s.Budget) {
+					// one execution ran out of steps, the other finished just
+					// below the budget: inconclusive, and so is the rest of the task
+					res.Stats.Judged["inconclusive: at the edge of the step budget"]++
+					break
+				}
 				if !sameOutcome(&conc[ti][i], &solo[ti][i]) {
 					res.addViol(Violation{Class: "concurrent-outcome", Task: ti, OpIndex: i, OpKind: s.Tasks[ti][i].K,
 						Symptom: symptomOf(&conc[ti][i], &solo[ti][i]),
@@ -390,6 +397,13 @@ func execC18(s *Script, ch vsimrt.Chooser) *RunResult {
 						Expected: clipStr(solo[ti][i].key()), Observed: clipStr(conc[ti][i].key())})
 					break
 				}
+			}
+		}
+	}
+	if os.Getenv("VSIM_DUMP") != "" {
+		for ti := range conc {
+			for i := range conc[ti] {
+				fmt.Fprintf(os.Stderr, "task %d op %d %s steps solo=%d conc=%d same=%v\n  solo: %.200s\n  conc: %.200s\n", ti, i, s.Tasks[ti][i].K, solo[ti][i].Steps, conc[ti][i].Steps, sameOutcome(&conc[ti][i], &solo[ti][i]), solo[ti][i].key(), conc[ti][i].key())
 			}
 		}
 	}
@@ -502,6 +516,10 @@ func execC17(s *Script, ch vsimrt.Chooser) *RunResult {
 				return
 			}
 			res.Stats.Judged["repeat/"+variant+"/"+subject[i].K]++
+			if budgetEdge(&got[i], &ref[i], s.Budget) {
+				res.Stats.Fired["inconclusive: at the edge of the step budget"]++
+				return
+			}
 			if !sameOutcome(&got[i], &ref[i]) {
 				res.addViol(Violation{Class: "repeat", Task: 0, OpIndex: i, OpKind: subject[i].K, Pert: variant,
 					Symptom: symptomOf(&got[i], &ref[i]), Detail: "the same operation with equal inputs returned something else on the repeat (" + variant + ")",
@@ -724,4 +742,19 @@ func crashOnly(r *RunResult) *RunResult {
 		return nil
 	}
 	return r
+}
+
+// budgetEdge: exactly one of two executions of an operation was cut off by
+// the step budget while the other one finished having used more than half of
+// it. Step counts may legitimately differ a little between executions (work
+// done once per process, for instance), so this is not evidence of anything.
+func budgetEdge(a, b *Outcome, budget int64) bool {
+	if a.Diverged == b.Diverged {
+		return false
+	}
+	fin := a
+	if a.Diverged {
+		fin = b
+	}
+	return fin.Steps > budget/2
 }
